@@ -205,6 +205,14 @@ class Unit:
         s, p, bo, bc = self._fn_span(fnref)
         self.text = self.text[:bo + 1] + '\n' + text + self.text[bo + 1:]
 
+    def body_end(self, fnref, text):
+        s, p, bo, bc = self._fn_span(fnref)
+        self.text = self.text[:bc] + text + '\n    ' + self.text[bc:]
+
+    def probe(self, fnref):
+        """register a (lemma) function for the vacuity probe without giving it a contract"""
+        self.contracted.append(self.fnkey(fnref))
+
     def loop(self, fnref, ordinal, spec, iter_name=None):
         """Splice invariants into the ordinal-th loop header (0-based, in
         textual order) of the function."""
@@ -308,7 +316,9 @@ class Unit:
                 if key in self.no_vacuity:
                     continue
                 fnref = tuple(key.rsplit('::', 1)) if '::' in key else key
-                self.body_start(fnref, '        proof { assert(false); } // VACUITY-PROBE')
+                s_, p_, bo_, bc_ = self._fn_span(fnref)
+                is_proof = re.search(r'(?<![A-Za-z0-9_])proof\s+fn\s*$', self.text[max(0, p_ - 40):p_ + 2].split('fn')[0] + 'fn') is not None
+                self.body_start(fnref, '        assert(false); // VACUITY-PROBE' if is_proof else '        proof { assert(false); } // VACUITY-PROBE')
             return self.text
         finally:
             self.text = saved
